@@ -79,7 +79,13 @@ def eval_test(test, origin, subject, is_none, flags=None):
         if isinstance(c, ast.Constant) and isinstance(c.value, bool):
             return c.value
         if isinstance(c, ast.BoolOp):
-            vals = [ev(v) for v in c.values]
+            # left to right with short circuit: an operand that is not evaluated contributes no guard
+            vals = []
+            for v_ in c.values:
+                r_ = ev(v_)
+                vals.append(r_)
+                if (isinstance(c.op, ast.And) and r_ is False) or (isinstance(c.op, ast.Or) and r_ is True):
+                    break
             if isinstance(c.op, ast.And):
                 if any(v is False for v in vals):
                     return False
@@ -262,7 +268,11 @@ class Interp(object):
             if isinstance(st, ast.Assign) and len(st.targets) == 1:
                 tg = st.targets[0]
                 if isinstance(tg, ast.Name):
-                    env[tg.id] = self.ev(st.value, env)
+                    new = self.ev(st.value, env)
+                    if loop is not None and conds and tg.id in env and env[tg.id][0] not in ("lb", "db", "pb"):
+                        # bound under a test inside the loop: the value depends on that test (item = None; if i < len(r): item = conv)
+                        new = ("ite", conds[-1], new, env[tg.id])
+                    env[tg.id] = new
                     continue
                 if isinstance(tg, ast.Subscript) and norm(tg) == self.sink:
                     self.results.append(self.fin(self.ev(st.value, env)))
@@ -315,6 +325,9 @@ class Interp(object):
             if len(items) == 1 and items[0][0] == "elem" and items[0][1] == ():
                 return ("listof", items[0][2])
             if items and all(i[0] == "args" for i in items):
+                if len(items) == 1 and items[0][1] == () and isinstance(items[0][2], tuple) and items[0][2] and items[0][2][0] == "ite":
+                    _, c_, a_, b_ = items[0][2]
+                    return ("poslist", a_, b_) if c_ else ("poslist", b_, a_)
                 if len(items) == 1 and items[0][1] == ():
                     return ("poslist", items[0][2], "unpadded")
                 if len(items) == 2 and {items[0][1], items[1][1]} == {(True,), (False,)}:
